@@ -105,52 +105,52 @@ Theorem C18_digits_parse_back : forall n, (0 <= n)%Z -> int_of_digits (digits n)
 Proof. exact digits_roundtrip. Qed.
 Print Assumptions C18_digits_parse_back.
 
-(* (6) apply_format: the numbers are the same rounded quantities, scaled by 10^-sh where sh is
-   the shift of the presentation type ('%' is replaced by 'f'); dof is truncated *)
-Theorem C18_apply_format : forall x u df f,
-  fm_nzf f = true -> good_type (fm_type f) -> 0 < u -> (1 <= rplace u (fm_u_exponent f))%Z ->
+(* (6) apply_format (repaired, finding C18-K4 fixed): for EVERY presentation type
+   f F e E g G n % the numbers returned are the same rounded quantities Mx * 10^ue, N * 10^ue
+   in the units of the original number -- the display-only scaling by 10^E or 100 is not
+   applied -- and dof is truncated.  (Before the fix this held for f F % only and
+   C18_apply_format_exponent_refuted exhibited x = 1.23457 for 12345.678 with type e.) *)
+Theorem C18_apply_format_original_units : forall x u df f,
+  fm_nzf f = true -> fm_type f <> Tother -> 0 < u -> (1 <= rplace u (fm_u_exponent f))%Z ->
   df <= 100000#1 ->
   let ue := fm_u_exponent f in
-  let t := match fm_type f with Tpct => Tf | t => t end in
-  let E := oomQ (maximumQ x u ue) in let sh := shift_of t ue E in
   exists vx vu d,
     apply_format_real QOps x u df f = Ok (vx, vu, d) /\
-    vx == inject_Z (rplace x ue) * p10Q (ue - sh) /\
-    vu == inject_Z (rplace u ue) * p10Q (ue - sh) /\
+    vx == inject_Z (rplace x ue) * p10Q ue /\
+    vu == inject_Z (rplace u ue) * p10Q ue /\
     d == inject_Z (Qfloor (df * p10Q (fm_df_precision f))) * p10Q (- fm_df_precision f).
 Proof. exact apply_format_real_spec. Qed.
-Print Assumptions C18_apply_format.
-
-(* ... hence in the units of the original number for f, F, % (sh = 0) *)
-Theorem C18_apply_format_original_units : forall x u df f,
-  fm_nzf f = true -> 0 < u -> (1 <= rplace u (fm_u_exponent f))%Z -> df <= 100000#1 ->
-  (fm_type f = Tf \/ fm_type f = TF \/ fm_type f = Tpct) ->
-  exists vx vu d,
-    apply_format_real QOps x u df f = Ok (vx, vu, d) /\
-    vx == inject_Z (rplace x (fm_u_exponent f)) * p10Q (fm_u_exponent f) /\
-    vu == inject_Z (rplace u (fm_u_exponent f)) * p10Q (fm_u_exponent f).
-Proof.
-  intros x u df f Hn Hu HN Hdf Ht.
-  assert (Hg : good_type (fm_type f)) by (destruct Ht as [-> | [-> | ->]]; exact I).
-  destruct (apply_format_real_spec x u df f Hn Hg Hu HN Hdf) as [vx [vu [d [H [Hx [Hv _]]]]]].
-  exists vx, vu, d. split; [exact H|].
-  destruct Ht as [Ht | [Ht | Ht]]; rewrite Ht in Hx, Hv; unfold shift_of, as_f_of in Hx, Hv;
-    cbn [is_fF orb] in Hx, Hv; rewrite Z.sub_0_r in Hx, Hv; split; assumption.
-Qed.
 Print Assumptions C18_apply_format_original_units.
 
-(* ... but NOT for the exponent types: apply_format returns the mantissas (finding C18-K4) *)
-Example C18_apply_format_exponent_refuted :
-  exists x u f vx vu d,
-    create_format QOps u None (plain_args 2 Te) = Ok f /\
-    apply_format_real QOps x u (789#100) f = Ok (vx, vu, d) /\
-    ~ vx == inject_Z (rplace x (fm_u_exponent f)) * p10Q (fm_u_exponent f).
+(* the same for uncertain complex numbers: both components at the common place, r rounded to
+   r_precision (within half a unit of that place), dof truncated *)
+Theorem C18_apply_format_complex : forall xr ur xi ui r df f,
+  fm_nzf f = true -> fm_type f <> Tother -> 0 < ur -> 0 < ui ->
+  (1 <= rplace ur (fm_u_exponent f))%Z -> (1 <= rplace ui (fm_u_exponent f))%Z ->
+  df <= 100000#1 ->
+  let ue := fm_u_exponent f in
+  exists vxr vxi vur vui rr d,
+    apply_format_complex QOps (xr, ur) (xi, ui) r df f = Ok ((vxr, vxi), (vur, vui), rr, d) /\
+    vxr == inject_Z (rplace xr ue) * p10Q ue /\ vur == inject_Z (rplace ur ue) * p10Q ue /\
+    vxi == inject_Z (rplace xi ue) * p10Q ue /\ vui == inject_Z (rplace ui ue) * p10Q ue /\
+    Qabs (rr - r) <= (1#2) * p10Q (- fm_r_precision f) /\
+    d == inject_Z (Qfloor (df * p10Q (fm_df_precision f))) * p10Q (- fm_df_precision f).
+Proof. exact apply_format_complex_spec. Qed.
+Print Assumptions C18_apply_format_complex.
+
+(* non-vacuity, and the former counterexample: type e now gives 12345.7, 1.2, dof 7 *)
+Example C18_ex_apply_format_exponent :
+  exists f,
+    create_format QOps (12#10) None (plain_args 2 Te) = Ok f /\
+    fm_nzf f = true /\ fm_type f <> Tother /\ (1 <= rplace (12#10) (fm_u_exponent f))%Z /\
+    exists vx vu d,
+      apply_format_real QOps (12345678#1000) (12#10) (789#100) f = Ok (vx, vu, d) /\
+      vx == 123457#10 /\ vu == 12#10 /\ d == 7.
 Proof.
-  exists (12345678#1000), (12#10). eexists. eexists. eexists. eexists.
-  split; [vm_compute; reflexivity|]. split; [vm_compute; reflexivity|].
-  intro H. vm_compute in H. discriminate H.
+  eexists. split; [vm_compute; reflexivity|]. split; [reflexivity|]. split; [discriminate|].
+  split; [vm_compute; discriminate|].
+  eexists. eexists. eexists. split; [vm_compute; reflexivity|]. repeat split; vm_compute; reflexivity.
 Qed.
-Print Assumptions C18_apply_format_exponent_refuted.
 
 Theorem C18_truncate_dof : forall dof p,
   dof <= 100000#1 ->
